@@ -136,21 +136,21 @@ def validate_traces(trace_module, cfg, files, pid, jobs=8, timeout=1800, constan
         out, info = tlc(trace_module, cfg, md, workers=1, timeout=timeout, env=env, heap="3g")
         res = {"file": f, "viols": [], "ok": False, "stuck_line": None, "events": 0, "raw_tail": out[-1500:]}
         for line in out.splitlines():
-            if line.startswith('<<"VIOL"') or line.startswith('<<"KNOWN"'):
-                d = parse_tla_tuple_line(line)
-                d["kind"] = "KNOWN" if line.startswith('<<"KNOWN"') else "VIOL"
-                m = re.search(r'"id", "([^"]+)"', line)
+            if line.startswith('"VIOL ') or line.startswith('"KNOWN '):
+                d = {"kind": "KNOWN" if line.startswith('"KNOWN') else "VIOL"}
+                m = re.search(r'line=(\d+) run=(-?\d+)', line)
                 if m:
-                    d["id"] = m.group(1)
+                    d["line"] = int(m.group(1)); d["run"] = int(m.group(2))
+                d["clauses"] = re.findall(r'C\d\d_[A-Za-z0-9_]+', line)
                 res["viols"].append(d)
-            elif line.startswith('<<"TRACE-OK"'):
+            elif line.startswith('"TRACE-OK'):
                 res["ok"] = True
-                m = re.search(r"(\d+)>>", line)
+                m = re.search(r"events=(\d+)", line)
                 res["events"] = int(m.group(1)) if m else 0
-            elif line.startswith('<<"TRACE-STUCK"'):
-                d = parse_tla_tuple_line(line)
-                res["stuck_line"] = d.get("line")
-                res["stuck_raw"] = line[:600]
+            elif line.startswith('"TRACE-STUCK'):
+                m = re.search(r"line=(\d+)", line)
+                res["stuck_line"] = int(m.group(1)) if m else 0
+                res["stuck_raw"] = line[:300]
         if not res["ok"] and res["stuck_line"] is None:
             raise ToolError(f"trace validation of {f} produced no verdict:\n{out[-3000:]}")
         return res
